@@ -35,6 +35,10 @@ def main(argv: List[str]) -> int:
     doccheck.judge('C06', rep, res, items, lambda it: True)
     rep.notes['fault_documents'] = len(fs)
     rep.notes['per_fault_kind'] = kinds
+    want = ['DupTable', 'DupAlias', 'AliasIsKey', 'DupEnum', 'DupGroup', 'DupGroupItem', 'DupRef', 'DupRefInline', 'DupInlineTwice',
+            'EmptyTable', 'RefNoTable', 'RefNoColumn', 'IdxNoColumn', 'GroupNoTable']
+    if sorted(kinds) != sorted(want):
+        raise core.Machinery('C06: fault kinds judged %s, expected %s' % (sorted(kinds), sorted(want)))
     for tid in list(items)[:3]:
         v, r = res[tid]
         rep.samples.append({'id': items[tid]['seed'], 'fault': items[tid]['variant'], 'text': r.get('text', '')[:1200],
